@@ -27,6 +27,12 @@ pub fn basic(
             let caret_datum = datum_definitions
                 .get(caret_datum_id)
                 .unwrap_or_else(|| panic!("datum #{}", caret_datum_id));
+            // Zero-size data occupy no byte and are not necessarily listed in address order:
+            // they must not be mistaken for the end of a hole.
+            if caret_datum.details().size() == 0 {
+                data_caret += 1;
+                continue;
+            }
             if caret_datum.details().offset() == byte_caret {
                 data_caret += 1;
                 byte_caret += caret_datum.details().size();
